@@ -41,6 +41,16 @@ def run(tier):
     run.states += len(entries)
     run.transitions += 2 * len(entries)
     run.traces += 2 * len(entries)
+    # base returns that declare an unsupported situation by construction
+    for year in (2021, 2022, 2023):
+        for b in e3.bases_for(year):
+            if b.name in e3.EXPECT_REFUSED:
+                r, asked = e3.run_return(year, b, {})
+                run.outcome(('refused-base', year, b.name, r.outcome_class()))
+                run.evaluations += 1
+                if r.exc is None and r.verdict:
+                    run.violation(f'C09|{year}|{b.name}|solved', dict(engine='e3', year=year, base=b.name, assign={}),
+                                  f'{b.name} ({year}) declares an unsupported situation by construction and solved')
     if entries:
         run.sample(dict(engine='gate', **{k: entries[0][k] for k in ('year', 'base', 'input', 'value', 'outcome')}))
     e3.explore_all(run, PID, tier, finding_key=lambda kind, msg, case: f'C09|{case["year"]}|{kind}')
